@@ -81,8 +81,8 @@ SPEC = dict(
         "UTC only: time zones and DST are not modelled (Go's time package is trusted for UTC date arithmetic)",
         "randutil.RandomDuration is not modelled: for spread windows the delay is checked to lie in [start-now, start-now+bound)",
     ],
-    assumptions=["PARTIAL: (a) termination of Schedule.Next's day search is not proved; C16_in_window_partial is conditional on the search succeeding within the fuel "
-                 "(400 days in the differential run; a case that needed more would be reported as a mismatch); "
+    assumptions=["PARTIAL: (a) termination of Schedule.Next's day search is proved (C16_next_fuel, fuel = days(last..now)+64; calendar facts by one vm_compute sweep over a 400-year cycle "
+                 "lifted by periodicity); the differential run evaluates the model with fuel 400 days; "
                  "(b) manager level: refresh.hold / gating holds, metered connections, the legacy refresh.schedule option, store failures and changes in flight are not modelled "
                  "(the driver keeps them out); advancing the clock cannot be played (Ensure uses time.Now), so `an attempt at its planned time` is covered by the theorem and by "
                  "checking every PLANNED time, not by waiting for it.",
